@@ -87,11 +87,23 @@ pub fn run_crash(prop: &str, seed: u64, index: usize, tier: Tier) -> RunReport {
     };
     // short writes / short reads / EINTR are legal kernel behaviour: enabled in a third of the runs (they also
     // change how entries are cut into write effects, hence the torn-write shapes)
-    let (case, d) = generate(seed, profile, prop != "C04", 0);
+    let (case, d) = if prop == "C12" {
+        // lenient: a batch that is applied only in part shows as a divergence from the model first; keep watching
+        crate::gen::generate_with(seed, profile, true, 0, true)
+    } else {
+        generate(seed, profile, prop != "C04", 0)
+    };
     let mut rep = RunReport::default();
     rep.digest = d.digest.0;
     rep.probes = d.probes.clone();
     rep.states.push(state_signature(&d));
+    if prop == "C12" {
+        if let Some(f) = d.first_failure("C12") {
+            let mut c = case.clone();
+            c.ops.truncate(f.op_index + 1);
+            rep.found.push(Found { prop: prop.to_string(), clause: f.clause.clone(), detail: f.detail.clone(), case: c, fault: Fault::None });
+        }
+    }
     if prop == "C04" && !d.conformance_ok() {
         // lenient driver: the model-independent monitor kept running after the divergence
         if let Some(f) = d.first_failure("C04") {
